@@ -14,13 +14,13 @@ import (
 
 // specCase is one specified function: arity a (incl. receiver for methods), r results, matrices, call form, body kind.
 type specCase struct {
-	A, R  int
-	Args  [][]int // Args[i] = list of k
-	Rets  [][]int // Rets[i] = list of j
-	Form  string  // direct | method | invoke | funcval | deferred
-	Body  string  // all | none
-	Bits  uint64
-	Idx   int
+	A, R int
+	Args [][]int // Args[i] = list of k
+	Rets [][]int // Rets[i] = list of j
+	Form string  // direct | method | invoke | funcval | deferred
+	Body string  // all | none
+	Bits uint64
+	Idx  int
 }
 
 func (c specCase) has(m [][]int, i, t int) bool {
